@@ -620,7 +620,11 @@ func (u *Universe) renderNode(n *Node) map[string]any {
 	}
 	o["properties"] = props
 	if n.InPlace != nil {
-		o["allOf"] = []any{map[string]any{"$ref": n.InPlace.Text}}
+		if !u.Draft7 && n.ID%2 == 0 {
+			o["$ref"] = n.InPlace.Text // 2020-12: $ref next to other keywords
+		} else {
+			o["allOf"] = []any{map[string]any{"$ref": n.InPlace.Text}}
+		}
 	}
 	if len(n.Kids) > 0 {
 		defs := map[string]any{}
